@@ -73,6 +73,7 @@ fn main() {
         "C07" => mon::c07::run(&p, mon::c07::Which::C07),
         "C14" => mon::c07::run(&p, mon::c07::Which::C14),
         "C08" => mon::c08::run(&p),
+        "C09" => mon::c09::run(&p),
         "C10" => mon::c10::run(&p),
         "C11" => mon::c11::run(&p),
         "C12" => mon::c12::run(&p),
